@@ -8,7 +8,11 @@ def fieldsOfJson (j : Json) : Except String Fields := do
   let attrib0 ← match j.getObjVal? "attribute" with
     | .ok v => pairList v
     | .error _ => pure []
+  let inst0 ← match j.getObjVal? "instance" with
+    | .ok v => pairList v
+    | .error _ => pure []
   pure {
+    instAttrs := inst0,
     name := getStrD j "name" "data", title := getStrD j "title" "", idString := getStrD j "id_string" "",
     namespaces := getStrD j "namespaces" "", entityFeatures := getBoolD j "entity_features" false,
     style := getStrD j "style" "", attrib := attrib0, instanceXmlns := getStrD j "instance_xmlns" "",
